@@ -33,7 +33,7 @@ RULE = ('plan = history of 10-30 requests by 2 identities (+ 3 identities '
         'checked. evaluations counts frames checked. Non-trivial: the '
         'history produced >= 1 success frame and >= 2 distinct error '
         'classes. Distinct = history digest.')
-PROBES = ['frames_server', 'frames_client', 'success_frames',
+PROBES = ['client_objects_read_independently', 'frames_server', 'frames_client', 'success_frames',
           'parse_failure_frames', 'auth_failure_frames',
           'header_reject_frames', 'too_large_frames',
           'general_failure_frames', 'maxresp_threshold_pairs',
@@ -113,10 +113,54 @@ def generate(rng, tier, index):
         elif x < 0.98:
             steps.append({'clock': r.choice([1, 59, 61, 3600, -5, -120])})
         else:
+            from sim.props import c05
             steps.append({'client': True, 'ver': list(r.choice(
-                gen.VERSIONS)), 'value': ctx.rbytes(16)})
+                gen.VERSIONS)), 'value': ctx.rbytes(16),
+                'specs': [c05.gen_spec(r, r.choice(
+                    gen.OTYPES + ['SplitKey', 'SplitKey']))
+                    for _ in range(r.choice([1, 2, 3]))]})
     return {'actors': actors, 'plugin_fails': plugin_fails,
             'seed': r.randrange(1 << 30), 'steps': steps}
+
+
+def client_object_differs(frame, spec):
+    """Compare the managed object inside a Register request the client
+    library emitted with the description it was built from, reading the
+    frame with the independent reader. -> None | (field, want, got)"""
+    try:
+        tree = t.parse(frame)
+    except t.TTLVError:
+        return None         # reported by the well-formedness oracle
+    obj = None
+
+    def walk(n):
+        nonlocal obj
+        if obj is not None or n.type != t.STRUCT:
+            return
+        if n.tag == t.TAG['REQUEST_PAYLOAD']:
+            obj = reqs.read_object(n)
+            return
+        for c in n.children():
+            walk(c)
+    walk(tree)
+    if obj is None:
+        return ('object', spec['otype'], None)
+    want = {'otype': spec['otype']}
+    if isinstance(obj.get('value'), str):
+        want['value'] = spec['value']
+    for a, b in (('alg', 'alg'), ('len', 'len'), ('parts', 'parts'),
+                 ('part_id', 'part_id'), ('threshold', 'threshold'),
+                 ('method', 'method'), ('prime', 'prime'),
+                 ('sdtype', 'sdtype'), ('odtype', 'odtype')):
+        if b in spec:
+            want[a] = spec[b]
+    if spec['otype'] in ('SymmetricKey', 'SplitKey', 'PublicKey',
+                         'PrivateKey'):
+        want['kft'] = spec.get('kft', 1)
+    for k, v in want.items():
+        if obj.get(k) != v:
+            return (k, v, obj.get(k))
+    return None
 
 
 def execute(plan):
@@ -215,6 +259,28 @@ def execute(plan):
                     c.get(uid)
                 except Exception:
                     pass
+                # objects of every type with boundary values: what the
+                # client put on the wire is read back with the independent
+                # reader and compared with what the caller handed over
+                from sim.props import c05
+                for spec in st.get('specs', []):
+                    try:
+                        obj = c05.build_pie(spec)
+                    except Exception:
+                        continue
+                    nreq = len(sock.requests)
+                    try:
+                        c.get(c.register(obj))
+                    except Exception:
+                        pass
+                    if len(sock.requests) > nreq:
+                        probes['client_objects_read_independently'] += 1
+                        d = client_object_differs(sock.requests[nreq], spec)
+                        if d:
+                            flag('client-encoding-differs-from-independent'
+                                 '-reading', why='%s.%s' % (spec['otype'],
+                                                            d[0]),
+                                 want=d[1], got=d[2])
                 for f in sock.requests:
                     evals += 1
                     probes['frames_client'] += 1
